@@ -5,8 +5,11 @@ from gen import extract_facts
 generate_facts = extract_facts.generate
 
 ID = "C02"
-LEAN_MODULES = ["Econf.Props.C02", "Econf.Props.Tie"]
-THEOREMS = ["Econf.C02_parse_render", "Econf.C02_parse_render_plain", "Econf.C02_in_domain", "Econf.C02_entry_item", "Econf.C02_keyonly_item", "Econf.C02_no_final_newline", "Econf.parseLine_noeol", "Econf.parse_item", "Econf.splitLines_render", "Econf.Struct.tie_macros"]
+LEAN_MODULES = ["Econf.Props.C02", "Econf.Props.Tie", "Econf.Props.Leaf"]
+THEOREMS = ["Econf.C02_parse_render", "Econf.C02_parse_render_plain", "Econf.C02_in_domain", "Econf.C02_entry_item", "Econf.C02_keyonly_item", "Econf.C02_no_final_newline", "Econf.parseLine_noeol", "Econf.parse_item", "Econf.splitLines_render", "Econf.Struct.tie_macros",
+            "Leaf.C_check_delim"]
+# string helpers translated from the C source on every run (gen/c2lean.py); theorems in lean/Econf/Props/Leaf.lean
+LEAF_FNS = ["check_delim"]
 RULE = ("grammar-directed documents of DESIGN.md 5.1 (0..60 items, every spelling choice drawn at random) x 7 delimiter sets x 3 comment "
         "sets x final newline present/absent; non-trivial = at least one entry or section; distinct by file content and sets")
 PATH = b"/etc/app/doc.conf"
